@@ -17,23 +17,10 @@ def _next() -> int:
     return _serial[0]
 
 
-class Inst:
-    """Anything a factory returns: remembers who made it, when, and from which dependencies/arguments."""
-    def __init__(self, maker: str, *deps) -> None:
-        self.maker = maker
-        self.serial = _next()
-        self.deps = deps
-        _log.append(self)
+from c19top import Inst, OuterA   # noqa: E402  (A lives in a top-level module, B in this packaged one)
 
-    def desc(self):
-        return (self.maker, self.serial, tuple(d.desc() if isinstance(d, Inst) else repr(d) for d in self.deps))
-
-
-class OuterA:
-    class Item(Inst):
-        """Falsy by length (an empty collection-like service)."""
-        def __len__(self) -> int:
-            return 0
+Inst.serial_source = staticmethod(_next)
+Inst.log = _log
 
 
 class OuterB:
